@@ -120,6 +120,62 @@ Proof.
   - exists b, c; repeat split; auto.
 Qed.
 
+
+Lemma second_occ_complete l : forall seen x, count_occ Nat.eq_dec seen x <= 1 ->
+  2 <= count_occ Nat.eq_dec seen x + count_occ Nat.eq_dec l x -> In x (second_occ seen l).
+Proof.
+  induction l as [|y r IH]; intros seen x Hs H; simpl in *; [lia|].
+  destruct (Nat.eq_dec y x) as [->|Hne].
+  - destruct (count_occ Nat.eq_dec seen x =? 1) eqn:E.
+    + simpl; auto.
+    + apply Nat.eqb_neq in E. apply IH; simpl; destruct (Nat.eq_dec x x); try congruence; lia.
+  - assert (In x (second_occ (y :: seen) r)).
+    { apply IH; simpl; destruct (Nat.eq_dec y x); try congruence; lia. }
+    destruct (count_occ Nat.eq_dec seen y =? 1); simpl; auto.
+Qed.
+
+Lemma slots_in t v : nondeg t -> In v (tverts t) -> slots t v = 1.
+Proof.
+  destruct t as [[a b] c]; unfold slots; simpl. intros [H1 [H2 H3]] [<-|[<-|[<-|[]]]];
+  repeat match goal with |- context [?x =? ?y] => destruct (Nat.eqb_spec x y) end; simpl; congruence.
+Qed.
+
+Lemma share2_adjacent ts t tp : (forall i, i < length ts -> nondeg (tnth ts i)) -> nondeg t ->
+  tp < length ts -> share2 t (tnth ts tp) -> In tp (adjacent ts t).
+Proof.
+  intros Hnd Ht Htp [u [v [Huv [Hu [Hv [Hu' Hv']]]]]].
+  unfold adjacent. apply second_occ_complete; [simpl; lia|]. simpl.
+  pose proof (slots_in (tnth ts tp) u (Hnd tp Htp) Hu') as Su.
+  pose proof (slots_in (tnth ts tp) v (Hnd tp Htp) Hv') as Sv.
+  destruct t as [[a b] c]. simpl. rewrite !count_occ_app. simpl. unfold vtris. rewrite !count_vtris. simpl.
+  rewrite Nat.sub_0_r. replace (tp <? length ts) with true by (symmetry; apply Nat.ltb_lt; auto).
+  simpl in Hu, Hv. destruct Hu as [<-|[<-|[<-|[]]]]; destruct Hv as [<-|[<-|[<-|[]]]]; try congruence; lia.
+Qed.
+
+(* bookkeeping of one pass over adjacent_triangles: the new triangles go on top of the stack and of the visited list *)
+Lemma visit_adj_struct e1 adj : forall stk vis ts,
+  exists news, fst (fst (visit_adj e1 adj (stk, vis, ts))) = news ++ stk /\
+               snd (fst (visit_adj e1 adj (stk, vis, ts))) = news ++ vis /\
+               (forall x, In x news -> In x adj) /\
+               (NoDup vis -> NoDup (news ++ vis)) /\
+               (forall x, In x adj -> In x (news ++ vis)).
+Proof.
+  induction adj as [|tp r IH]; intros stk vis ts; simpl.
+  - exists []; simpl; repeat split; auto. intros x [].
+  - destruct (existsb (Nat.eqb tp) vis) eqn:E.
+    + destruct (IH stk vis ts) as [news [A [B [C0 [D F]]]]]. exists news. repeat split; auto.
+      intros x [<-|Hx]; auto. apply in_or_app; right. apply existsb_exists in E. destruct E as [y [Hy Ey]].
+      apply Nat.eqb_eq in Ey; subst; auto.
+    + set (ts' := if has_same_edge e1 (dedges (tnth ts tp)) then upd ts tp (flip (tnth ts tp)) else ts).
+      destruct (IH (tp :: stk) (tp :: vis) ts') as [news [A [B [C0 [D F]]]]].
+      exists (news ++ [tp]). rewrite <- !app_assoc; simpl. repeat split; auto.
+      * intros x Hx. apply in_app_or in Hx. destruct Hx as [Hx|[<-|[]]]; auto.
+      * intros Hnd. apply D. constructor; auto. intros Hin.
+        assert (existsb (Nat.eqb tp) vis = true); [|congruence].
+        apply existsb_exists. exists tp; split; auto. apply Nat.eqb_refl.
+      * intros x [<-|Hx]; [apply in_or_app; right; simpl; auto|apply F; auto].
+Qed.
+
 (* ------------------------------------------------------------------ the invariant of the fill *)
 Section Fill.
 Variable ts0 sg : list tri.
@@ -249,6 +305,90 @@ Proof.
   - exists vis'; split; auto. apply J2; simpl; auto.
 Qed.
 
+
+(* ------------------------------------------------------------------ the traversal reaches every triangle *)
+Definition E (i j : nat) : Prop := i < length ts0 /\ j < length ts0 /\ share2 (tnth ts0 i) (tnth ts0 j).
+Definition closed (stk vis : list nat) : Prop := forall i, In i vis -> ~ In i stk -> forall j, E i j -> In j vis.
+
+Lemma length_le_range (l : list nat) : NoDup l -> (forall i, In i l -> i < length ts0) -> length l <= length ts0.
+Proof.
+  intros Hnd Hlt. rewrite <- (seq_length (length ts0) 0). apply NoDup_incl_length; auto.
+  intros i Hi. apply in_seq. specialize (Hlt i Hi). lia.
+Qed.
+
+Lemma fill_full fuel : forall stk vis ts,
+  inv vis ts -> (forall i, In i stk -> In i vis /\ i < length ts0) ->
+  NoDup vis -> (forall i, In i vis -> i < length ts0) ->
+  closed stk vis -> length stk + (length ts0 - length vis) <= fuel ->
+  exists vis', inv vis' (fill fuel stk vis ts) /\ (forall i, In i vis -> In i vis') /\ closed [] vis'.
+Proof.
+  induction fuel as [|f IH]; intros stk vis ts Hinv Hstk Hnd Hlt Hcl Hm.
+  - destruct stk; [|simpl in Hm; lia]. simpl. exists vis; auto.
+  - destruct stk as [|t1 stk']; [simpl; exists vis; auto|]. simpl.
+    destruct (Hstk t1 (or_introl eq_refl)) as [Hv1 Ht1].
+    pose proof Hinv as [Hl Hi].
+    assert (Hcur : tnth ts t1 = tnth sg t1) by (apply (Hi t1 Ht1); auto).
+    rewrite Hcur.
+    assert (N1 : forall i, i < length ts -> nondeg (tnth ts i)) by (intros i Hi0; eapply inv_nondeg; eauto).
+    assert (N2 : nondeg (tnth sg t1)) by (apply sg_nondeg; auto).
+    pose proof (visit_adj_inv t1 (adjacent ts (tnth sg t1)) stk' vis ts Ht1 Hv1) as Hstep.
+    assert (Hadj : forall tp, In tp (adjacent ts (tnth sg t1)) -> tp < length ts0 /\ share2 (tnth sg t1) (tnth ts0 tp)).
+    { intros tp Htp.
+      destruct (adjacent_share2 ts (tnth sg t1) tp N1 N2 Htp) as [A B].
+      rewrite Hl in A. split; auto.
+      destruct B as [u [v [Huv [B1 [B2 [B3 B4]]]]]]. exists u, v.
+      repeat split; auto; apply (proj1 (inv_verts vis ts tp _ Hinv A)); auto. }
+    assert (Hstk2 : forall i, In i stk' -> In i vis /\ i < length ts0) by (intros i Hin; apply Hstk; simpl; auto).
+    specialize (Hstep Hadj Hinv Hstk2).
+    destruct (visit_adj_struct (dedges (tnth sg t1)) (adjacent ts (tnth sg t1)) stk' vis ts) as [news [A [B [C0 [D F]]]]].
+    destruct (visit_adj (dedges (tnth sg t1)) (adjacent ts (tnth sg t1)) (stk', vis, ts)) as [[stk2 vis2] ts2].
+    simpl in A, B. subst stk2 vis2. destruct Hstep as [I1 [I2 I3]].
+    assert (Hlt2 : forall i, In i (news ++ vis) -> i < length ts0).
+    { intros i Hin. apply in_app_or in Hin. destruct Hin as [Hin|Hin]; auto. apply C0 in Hin. apply Hadj in Hin. tauto. }
+    assert (Hlen : length (news ++ vis) <= length ts0) by (apply length_le_range; auto).
+    assert (P1 : closed (news ++ stk') (news ++ vis)).
+    { intros i Hin Hns j HE. apply in_app_or in Hin. destruct Hin as [Hin|Hin].
+      * exfalso. apply Hns. apply in_or_app; auto.
+      * destruct (Nat.eq_dec i t1) as [->|Hne].
+        -- apply F. destruct HE as [_ [Hj Hsh]].
+           apply share2_adjacent; auto; [lia|].
+           destruct Hsh as [u [v [Huv [S1 [S2 [S3 S4]]]]]]. exists u, v. repeat split; auto.
+           ++ apply sg_verts; auto.
+           ++ apply sg_verts; auto.
+           ++ apply (proj2 (inv_verts vis ts j _ Hinv Hj)); auto.
+           ++ apply (proj2 (inv_verts vis ts j _ Hinv Hj)); auto.
+        -- apply in_or_app; right. apply (Hcl i Hin); auto.
+           intros [Heq|Hin']; [congruence|]. apply Hns. apply in_or_app; auto. }
+    assert (P2 : length (news ++ stk') + (length ts0 - length (news ++ vis)) <= f).
+    { rewrite !app_length in *. simpl in Hm. lia. }
+    destruct (IH (news ++ stk') (news ++ vis) ts2 I1 I2 (D Hnd) Hlt2 P1 P2) as [vis' [J1 [J2 J3]]].
+    exists vis'. split; [auto|split; [|auto]]. intros i Hin. apply J2. apply in_or_app; auto.
+Qed.
+
+Inductive reach : nat -> Prop :=
+| reach0 : reach 0
+| reach_step i j : reach i -> E i j -> reach j.
+
+Lemma closed_reach vis : In 0 vis -> closed [] vis -> forall j, reach j -> In j vis.
+Proof. intros H0 Hc j Hr. induction Hr; auto. eapply Hc; eauto. Qed.
+
+(* edge-connected + a consistent orientation agreeing with triangle 0: the fill produces exactly that orientation *)
+Lemma fill_connected : 0 < length ts0 -> tnth sg 0 = tnth ts0 0 ->
+  (forall j, j < length ts0 -> reach j) -> fill (length ts0) [0] [0] ts0 = sg.
+Proof.
+  intros Hpos H0 Hconn.
+  destruct (fill_full (length ts0) [0] [0] ts0) as [vis' [J1 [J2 J3]]].
+  - split; auto. intros i Hi. split; [intros [<-|[]]; auto|auto].
+  - intros i [<-|[]]; simpl; auto.
+  - constructor; [intros []|constructor].
+  - intros i [<-|[]]; auto.
+  - intros i [<-|[]] Hn. exfalso; apply Hn; simpl; auto.
+  - simpl. lia.
+  - destruct J1 as [Hl Hi]. destruct Hor as [Hls _].
+    apply (nth_ext _ _ (0, 0, 0) (0, 0, 0)); [congruence|].
+    intros n Hn. rewrite Hl in Hn. apply (Hi n Hn). apply (closed_reach vis'); auto. apply J2; simpl; auto.
+Qed.
+
 End Fill.
 
 (* when the fill has visited every triangle the result is the consistent orientation itself *)
@@ -277,5 +417,81 @@ Proof.
     destruct i as [|[|[|i]]]; destruct j as [|[|[|j]]]; try lia; reflexivity.
   - simpl. repeat (constructor; [simpl; intros Hc; repeat destruct Hc as [Hc|Hc]; try discriminate; auto|]). constructor.
   - vm_compute. reflexivity.
+  - vm_compute. reflexivity.
+Qed.
+
+(* ------------------------------------------------------------------ global flip, and the full statement *)
+Lemma hse_exists a b : has_same_edge a b = true -> exists e, In e a /\ In e b.
+Proof.
+  unfold has_same_edge. intros H. apply existsb_exists in H. destruct H as [x2 [H2 H]].
+  apply existsb_exists in H. destruct H as [x1 [H1 H]]. apply peqb_eq in H. subst. exists x2; auto.
+Qed.
+
+Lemma pair_ok_flip a b : pair_ok a b -> pair_ok (flip a) (flip b).
+Proof.
+  unfold pair_ok. intros H. destruct (has_same_edge (dedges (flip a)) (dedges (flip b))) eqn:E; auto.
+  apply hse_exists in E. destruct E as [[u v] [Ea Eb]]. apply (proj1 (flip_edges a u v)) in Ea. apply (proj1 (flip_edges b u v)) in Eb.
+  rewrite (hse_true (v, u) _ _ Ea Eb) in H. discriminate.
+Qed.
+
+Lemma tnth_map_flip sg i : tnth (map flip sg) i = flip (tnth sg i).
+Proof. unfold tnth. change (0, 0, 0) with (flip (0, 0, 0)) at 1. apply map_nth. Qed.
+
+Lemma flip_orientation ts0 sg : orientation_of ts0 sg -> orientation_of ts0 (map flip sg).
+Proof.
+  intros [Hl Ho]. split; [rewrite map_length; auto|]. intros i Hi. rewrite tnth_map_flip.
+  destruct (Ho i Hi) as [-> | ->]; [right; auto|left; apply flip_flip].
+Qed.
+
+Lemma flip_consistent sg : consistent_all sg -> consistent_all (map flip sg).
+Proof.
+  intros H i j Hi Hj Hne. rewrite map_length in Hi, Hj. rewrite !tnth_map_flip. apply pair_ok_flip. apply H; auto.
+Qed.
+
+(* flood_fill_consistent: non-degenerate triangles, a consistent orientation exists (edge-orientable), every triangle
+   is reachable from triangle 0 by steps across a shared edge (edge-connected): the fill that correct_local_orientation
+   runs ends in a consistent orientation of the same triangles *)
+Theorem fill_makes_consistent ts0 :
+  (forall i, i < length ts0 -> nondeg (tnth ts0 i)) ->
+  (exists sg, orientation_of ts0 sg /\ consistent_all sg) ->
+  (forall j, j < length ts0 -> reach ts0 j) -> 0 < length ts0 ->
+  orientation_of ts0 (fill (length ts0) [0] [0] ts0) /\ consistent_all (fill (length ts0) [0] [0] ts0).
+Proof.
+  intros Hnd [sg [Hor Hc]] Hconn Hpos.
+  destruct (proj2 Hor 0 Hpos) as [H0|H0].
+  - rewrite (fill_connected ts0 sg); auto.
+  - assert (H0' : tnth (map flip sg) 0 = tnth ts0 0) by (rewrite tnth_map_flip, H0; apply flip_flip).
+    rewrite (fill_connected ts0 (map flip sg)); auto.
+    + split; [apply flip_orientation|apply flip_consistent]; auto.
+    + apply flip_orientation; auto.
+    + apply flip_consistent; auto.
+Qed.
+
+Theorem correct_local_makes_consistent ix ts0 :
+  (forall i, i < length ts0 -> nondeg (tnth ts0 i)) ->
+  (exists sg, orientation_of ts0 sg /\ consistent_all sg) ->
+  (forall j, j < length ts0 -> reach ts0 j) ->
+  hco_fast ix ts0 = false ->
+  orientation_of ts0 (correct_local ix ts0) /\ consistent_all (correct_local ix ts0).
+Proof.
+  intros Hnd Hsg Hconn Hh. unfold correct_local. rewrite Hh.
+  destruct ts0 as [|t r] eqn:Ets; [discriminate|]. rewrite <- Ets in *.
+  apply fill_makes_consistent; auto. rewrite Ets; simpl; lia.
+Qed.
+
+Lemma square_fill_hyps :
+  let ts := [(0, 1, 2); (1, 2, 3)] in
+  (forall i, i < length ts -> nondeg (tnth ts i)) /\
+  (exists sg, orientation_of ts sg /\ consistent_all sg) /\
+  (forall j, j < length ts -> reach ts j) /\ hco_fast N.of_nat ts = false.
+Proof.
+  cbv zeta. split; [|split; [|split]].
+  - intros i Hi. simpl in Hi. destruct i as [|[|i]]; simpl; try lia; repeat split; discriminate.
+  - exists [(0, 1, 2); (2, 1, 3)]. split.
+    + split; [reflexivity|]. intros i Hi. simpl in Hi. destruct i as [|[|i]]; simpl; auto; lia.
+    + intros i j Hi Hj Hne. simpl in Hi, Hj. destruct i as [|[|i]]; destruct j as [|[|j]]; try lia; reflexivity.
+  - intros j Hj. simpl in Hj. destruct j as [|[|j]]; try lia; [constructor|].
+    apply (reach_step _ 0 1); [constructor|]. repeat split; simpl; try lia.
+    exists 1, 2. simpl. repeat split; auto.
   - vm_compute. reflexivity.
 Qed.
